@@ -770,6 +770,25 @@ def rule_stack(ctx):
                     f"removed axes (a projected output index before another removed output index shifts it by one)")
     else:
         r.ok(k, C.loc(f, keys[0]), "one key entry per removed output index")
+    # (seed C02_14) the sum-only shortcut is taken exactly when *no* removed index is an output index — decided by
+    # the table of output positions being empty, not by a count of chunks (a projected output index, or a sliced
+    # output index of dimension 1, still has to get its axis back)
+    k = ctx.key(f, "C06-STACK", "sum-only")
+    short = [n for n in walk_local(f.node) if isinstance(n, ast.Return) and isinstance(n.value, ast.Call)
+             and (dotted(n.value.func) or "").endswith("reduce") and C.enclosing_ifs(f, n)]
+    if not short:
+        r.exempt(k, f.loc, "no sum-only shortcut")
+    else:
+        g = C.enclosing_ifs(f, short[0])[0]
+        t = g[0].test
+        empty = (isinstance(t, ast.UnaryOp) and isinstance(t.op, ast.Not) and dotted(t.operand) == pos and g[1]) or \
+            (C.unparse(t).replace(" ", "") in (f"len({pos})==0", f"{pos}=={{}}") and g[1])
+        if empty:
+            r.ok(k, C.loc(f, short[0]), f"everything is summed exactly when `{pos}` is empty")
+        else:
+            r.violation(k, C.loc(f, short[0]), f"the sum-only shortcut is taken under `{C.unparse(t, 50)}`, not under 'no removed index "
+                        f"is an output index' (`not {pos}`): a projected output index, or a sliced output index of dimension 1, "
+                        f"gives one chunk too — summing then drops its axis and the result loses the declared output shape")
     k = ctx.key(f, "C06-STACK", "recursion")
     nested = [nf for nf in ctx.p.nested_funcs(f) if any(isinstance(x, ast.Constant) and x.value == "stack" for x in ast.walk(nf.node))]
     C.require(len(nested) == 1, "gather_slices: recursive stacking function not found")
